@@ -58,7 +58,11 @@ func ValidateSyncContribAndProof(ctx context.Context, signedContribAndProof *alt
 
 	// [REJECT] The aggregator's validator index is in the declared subcommittee of the current sync committee --
 	// i.e. state.validators[contribution_and_proof.aggregator_index].pubkey in get_sync_subcommittee_pubkeys(state, contribution.subcommittee_index).
-	pubs, indices, err := epc.CurrentSyncCommittee.Subcommittee(spec, uint64(contrib.SubcommitteeIndex))
+	syncCommittee := SyncCommitteeAtSlot(spec, epc, contrib.Slot)
+	if syncCommittee == nil {
+		return nil, GossipValidatorResult{IGNORE, fmt.Errorf("no sync committee available at slot %d", contrib.Slot)}
+	}
+	pubs, indices, err := syncCommittee.Subcommittee(spec, uint64(contrib.SubcommitteeIndex))
 	if err != nil {
 		return nil, GossipValidatorResult{REJECT, err}
 	} else {
